@@ -1352,6 +1352,34 @@ pub fn dispatch(args: &[String]) -> bool {
             crate::exec::write_cases(&out, &cases);
             true
         }
+        ("c07", "gen") => {
+            let mut rng = Rng::new(seed);
+            let stdout = std::io::stdout();
+            let mut w = stdout.lock();
+            for _ in 0..count {
+                writeln!(w, "{}", crate::c07::show(&crate::c07::gen(&mut rng))).unwrap();
+            }
+            true
+        }
+        ("c07", "sweep") => {
+            let stdout = std::io::stdout();
+            let mut w = stdout.lock();
+            crate::c07::sweep(|s| writeln!(w, "{}", crate::c07::show(&s)).unwrap());
+            true
+        }
+        ("c07", "run") => {
+            let input = arg(args, "--in").expect("--in");
+            let out = arg(args, "--out").expect("--out");
+            let text = std::fs::read_to_string(input).expect("read scripts");
+            let cases: Vec<Case> = text
+                .lines()
+                .filter(|l| !l.trim().is_empty() && !l.starts_with('#'))
+                .filter_map(crate::c07::parse)
+                .map(|s| crate::c07::to_case(&s))
+                .collect();
+            crate::exec::write_cases(&out, &cases);
+            true
+        }
         ("c16", "gen") => {
             let wv = args.iter().any(|a| a == "--wrong-variant");
             let mut rng = Rng::new(seed);
